@@ -153,8 +153,12 @@ Definition in_domain (dom : list entry) (e : entry) : bool :=
     existsb (fun d => match d with (l', t', _, _) => String.eqb l l' && list_eqb t t' end) dom end.
 (* the blocks of the source that belong to the domain (same location and template), in source
    order, must be exactly the expected entries *)
+(* ... as a set: the order of the blocks in the source (e.g. of macro invocations) is immaterial *)
 Definition exact_pins (expected : list entry) : bool :=
-  entries_eqb (filter (in_domain expected) asm_table) expected.
+  let blocks := filter (in_domain expected) asm_table in
+  Nat.eqb (length blocks) (length expected) &&
+  forallb (fun e => existsb (entry_eqb e) blocks) expected &&
+  forallb (fun b => existsb (entry_eqb b) expected) blocks.
 (* the rules below, for the whole crate (informational; each property pins them on its own blocks) *)
 (* rules that hold for every block of the crate:
    no `pure`; a template that pushes or pops may not be `nostack`; a template with a memory
@@ -268,4 +272,9 @@ Fixpoint shapes_eqb (a b : list (string * list string * string)) : bool :=
       String.eqb l1 l2 && list_eqb t1 t2 && String.eqb s1 s2 && shapes_eqb a' b'
   | _, _ => false
   end.
-Definition pins_C18_shapes : bool := shapes_eqb port_fn_shapes expected_port_fn_shapes.
+Definition shape_eqb (a b : string * list string * string) : bool :=
+  match a, b with (l1, t1, s1), (l2, t2, s2) => String.eqb l1 l2 && list_eqb t1 t2 && String.eqb s1 s2 end.
+Definition pins_C18_shapes : bool :=
+  Nat.eqb (length port_fn_shapes) (length expected_port_fn_shapes) &&
+  forallb (fun e => existsb (shape_eqb e) port_fn_shapes) expected_port_fn_shapes &&
+  forallb (fun b => existsb (shape_eqb b) expected_port_fn_shapes) port_fn_shapes.
